@@ -102,32 +102,34 @@ Theorem C05_shape_dtype_any_index : forall li ds ixs out, getitem li ds ixs = Ok
 Proof. exact getitem_shape_dtype. Qed.
 Print Assumptions C05_shape_dtype_any_index.
 
-(* C05_concat.  Proved (C05_concat_partial): for ANY number of parts with their running offsets, each part
-   behaving like outer indexing of its own first-stage result [f] (part_ok; C05_concat_parts shows that every
-   LazyIndexer part does, by C05_getitem), every tail index and every transform chain of the concatenation:
-   if the concatenated indexer answers a request whose head index is a scalar (incl. negative), a slice
-   (any start/stop; negative steps are rejected by the code) or a mask, the answer is exactly
-   transforms(oindex (concatenation of the parts' results) ix): values, shape and dtype.  No guard for the
-   open findings F10 / F10b / F30b is needed: there the indexer raises, the implication holds.
-   NOT CLOSED (full statement kept visible):
-     (a) head = integer list (scatter_parts / scatter): same conclusion; the branch proof is missing;
-     (b) the bridge from c_mk / spec_concat to this statement: c_mk drops parts without data on the first axis
-         (keeps the first when all are empty) while spec_concat concatenates all parts:
-           forall raws ts ix c out, Forall (fun r => shape non-negative, non-empty, same dtype) raws ->
-             (every part's first stage exists) -> c_mk raws ts = Ok c -> c_getitem c ix = Ok out ->
-             spec_concat raws ts ix = Ok out.
-   Both are carried by the correspondence (wire 52 compares c_mk/c_getitem with spec_concat on every case). *)
-Theorem C05_concat_partial : forall ps fs T dt,
+(* C05_concat (full strength): for every list of raw parts (any number, some without data on the first axis, each
+   a LazyIndexer with its own source and first stage), every index tuple (head: scalar incl. negative, slice with
+   any start/stop, mask, integer list incl. negative / unsorted-across-parts; any tail) and every transform chain of
+   the concatenation: if the concatenated indexer answers, the answer is exactly the transforms of the SAME index
+   applied to the concatenation (first axis) of the parts' first-stage results -- values, shape and dtype.
+   Hypotheses, stated explicitly: shapes are non-negative and have at least one axis, all parts have the same
+   dtype [dt] (raw_ok), and every part's first stage exists (numpy accepts source[stage 1]).
+   No guard for the open findings F10 / F10b / F30b: the indexer raises there, so the implication holds. *)
+Theorem C05_concat : forall dt raws ts ix c out fulls,
+  Forall (raw_ok dt) raws ->
+  mapM (fun r => oindex_keep (mk_nd (r_shape r) (r_ds r)) (r_keep r)) raws = Ok fulls ->
+  c_mk raws ts = Ok c -> c_getitem c ix = Ok out ->
+  spec_concat raws ts ix = Ok out.
+Proof. exact concat_correct. Qed.
+Print Assumptions C05_concat.
+
+(* the core of C05_concat on abstract parts: any parts behaving like outer indexing of their own result [f]
+   (part_ok), with running offsets; C05_concat_parts shows every LazyIndexer part does (by C05_getitem) *)
+Theorem C05_concat_core : forall ps fs T dt,
   Forall2 (part_ok T dt) ps fs -> ps <> [] -> Forall (fun p => 0 <= part_len p) ps ->
   forall ts ixs out,
   c_initial_dtype ps = Ok dt ->
-  head_proved (hd full (pad_to (Datatypes.S (List.length T)) ixs)) ->
   c_getitem (mk_concat ps ts) ixs = Ok out ->
   (r <- oindex (mk_nd (zsum (map part_len ps) :: T)
                       (Node (List.concat (map (fun f => children (nd_body f)) fs)))) ixs ;;
    apply_transforms ts (mk_arr dt r)) = Ok out.
 Proof. exact concat_core. Qed.
-Print Assumptions C05_concat_partial.
+Print Assumptions C05_concat_core.
 
 (* every real part satisfies the hypothesis of C05_concat_partial *)
 Theorem C05_concat_parts : forall r li a1,
